@@ -12,15 +12,18 @@ from .core import Ledger
 
 def _worker(job):
     modname, fname, kwargs = job
+    import time
+
+    t0 = time.time()
     try:
         from . import source
 
         source.ensure_repo_on_path()
         mod = importlib.import_module(modname)
         res = getattr(mod, fname)(**kwargs)
-        return ("ok", job, res, dict(source.used_targets))
+        return ("ok", job, res, dict(source.used_targets), time.time() - t0)
     except Exception:  # noqa: BLE001
-        return ("fault", job, traceback.format_exc(), {})
+        return ("fault", job, traceback.format_exc(), {}, time.time() - t0)
 
 
 def run_jobs(jobs, procs=None):
@@ -30,6 +33,7 @@ def run_jobs(jobs, procs=None):
         return [_worker(j) for j in jobs]
     ctx = mp.get_context("fork")
     with ctx.Pool(procs, maxtasksperchild=8) as pool:
+        # longest jobs first (callers may pass a 4th tuple element as a weight)
         return pool.map(_worker, jobs, chunksize=1)
 
 
@@ -38,8 +42,9 @@ def collect(chk, results):
     from . import source
 
     out = []
-    for status, job, res, used in results:
+    for status, job, res, used, secs in results:
         source.used_targets.update(used)
+        chk.notes.setdefault("job_seconds", {})[f"{job[1]}{job[2] or ''}"] = round(secs, 1)
         if status == "fault":
             chk.fault(f"job {job[0]}.{job[1]}{job[2]} crashed: {res[-1500:]}")
             continue
